@@ -409,7 +409,7 @@ def segA (u : URL) : GoMap (List GoString) :=
 def segB (u : URL) (env : StringEnv) : GoMap (List GoString) :=
   match u.params.filter with
   | some f => [(sFilter, [f])]
-  | none => if u.params.filterLabel ≠ [] then [(sFilter, [env.labelBody])] else []
+  | none => if u.params.filterLabel ≠ [] then [(sFilter, [rewriteBrace env.labelBody])] else []
 
 def segC (u : URL) : GoMap (List GoString) :=
   if u.isCol then (Typ.sortStrings u.params.page.keys).map (fun k =>
@@ -460,7 +460,7 @@ theorem run_segB (fd' : FilterDec) (u : URL) (env : StringEnv) (su : SimpleURL)
     (hexcl : u.params.filter = none ∨ u.params.filterLabel = [])
     (hfilter : ∀ f, u.params.filter = some f → f.head? = some 123 ∧ fd'.filter = some f)
     (hlabel : u.params.filter = none → u.params.filterLabel ≠ [] →
-      env.labelBody ≠ [] ∧ env.labelBody.head? ≠ some 123 ∧
+      rewriteBrace env.labelBody ≠ [] ∧ (rewriteBrace env.labelBody).head? ≠ some 123 ∧
       fd'.label = some u.params.filterLabel) :
     ∃ su2, rfold (sstep fd') (.ok su) (segB u env) = .ok su2 ∧ SameBut su su2 ∧
       su2.fields = su.fields ∧ su2.page = su.page ∧ su2.sortingRules = su.sortingRules ∧
@@ -553,7 +553,7 @@ theorem reparse_simple (u : URL) (env : StringEnv) (fd' : FilterDec)
     (hexcl : u.params.filter = none ∨ u.params.filterLabel = [])
     (hfilter : ∀ f, u.params.filter = some f → f.head? = some 123 ∧ fd'.filter = some f)
     (hlabel : u.params.filter = none → u.params.filterLabel ≠ [] →
-      env.labelBody ≠ [] ∧ env.labelBody.head? ≠ some 123 ∧
+      rewriteBrace env.labelBody ≠ [] ∧ (rewriteBrace env.labelBody).head? ≠ some 123 ∧
       fd'.label = some u.params.filterLabel) :
     ∃ su', newSimpleURL (Spec.emittedPath u) (Spec.emittedValues u env) fd' = .ok su' ∧
       su'.fragments = u.fragments ∧
@@ -766,7 +766,7 @@ theorem reparse_core {σ : Schema} (hσ : Inv σ) (hn : NamesOK σ) (path : GoSt
     (hne : NoEmptySelection u) (env : StringEnv) (fd' : FilterDec)
     (hfilter : ∀ f, u.params.filter = some f → f.head? = some 123 ∧ fd'.filter = some f)
     (hlabel : u.params.filter = none → u.params.filterLabel ≠ [] →
-      env.labelBody ≠ [] ∧ env.labelBody.head? ≠ some 123 ∧
+      rewriteBrace env.labelBody ≠ [] ∧ (rewriteBrace env.labelBody).head? ≠ some 123 ∧
       fd'.label = some u.params.filterLabel) :
     ∃ u', newURLFrom σ (some (Spec.emittedPath u, Spec.emittedValues u env, fd')) = .ok u' ∧
       u'.fragments = u.fragments ∧ u'.resType = u.resType ∧ u'.resID = u.resID ∧
